@@ -127,6 +127,14 @@ func init() {
 				return Inconclusive("native op binary not found")
 			}
 			w := Generate(c.Tape, tierProfile(profC20, c.Tier))
+			for i := range w.Nodes {
+				// some commands are pipelines whose first stage exits non-zero: fine for
+				// bash -c (status of the last stage counts), so the generated script
+				// must treat them the same way
+				if w.Nodes[i].Kind == KProc && c.Tape.Choose(simrt.StGen, 4, 0) == 1 {
+					w.Nodes[i].Prefix = "false |"
+				}
+			}
 			ex := Eval(w)
 			gran := []int64{0, 1e6, 15e6}[c.Tape.Choose(simrt.StGen, 3, 0)]
 			if gran > 0 {
@@ -145,13 +153,22 @@ func init() {
 				w1 := *w
 				w1.RunTo = []string{procs[c.Tape.Choose(simrt.StGen, len(procs), 0)]}
 				c.Fault("resumed-history")
+				// the resumed run may happen in another time zone / after the end of daylight
+				// saving time: wall-clock readings go backwards while real time goes on
+				opts2 := opts
+				if c.Tape.Choose(simrt.StGen, 2, 0) == 1 {
+					opts.TZOffset = 7200
+					opts.GapNS = 600e9
+					opts2.TZOffset = 3600
+					c.Fault("time-zone-change")
+				}
 				inc1 := RunInc(&w1, c.Tape, nil, 0, opts)
 				c.Absorb(inc1)
 				if v := flowOracle(inc1, Eval(&w1)); v.Status != "ok" {
 					return foreign(v)
 				}
-				opts.Strategy = strategyOf(c.Tape)
-				inc2 := RunInc(w, c.Tape, inc1.Sim.FS.Root, inc1.Sim.FS.NextIno, opts)
+				opts2.Strategy = strategyOf(c.Tape)
+				inc2 := RunInc(w, c.Tape, inc1.Sim.FS.Root, inc1.Sim.FS.NextIno, opts2)
 				c.Absorb(inc2)
 				if v, ok := inconclusiveEnd(inc2); ok {
 					return v
